@@ -1,10 +1,12 @@
 //! vcheck — property-based verification harness for scpi-rs (see /verif/DESIGN.md).
+pub mod alloc_count;
 pub mod bytes;
 pub mod cap;
 pub mod conv;
 pub mod engine;
 pub mod fixtree;
 pub mod model;
+pub mod na;
 pub mod gen;
 pub mod props;
 pub mod rec;
